@@ -2,6 +2,7 @@ package core
 
 import (
 	"go/token"
+	"go/types"
 
 	"golang.org/x/tools/go/ssa"
 )
@@ -154,7 +155,38 @@ func DependsOn(v, target ssa.Value, o SliceOpts) bool {
 // ForwardUses returns the instructions that (transitively) use v through value-preserving or
 // derived computations within the same function (referrers closure), following stores into
 // local variables to their loads.
-func ForwardUses(v ssa.Value) map[ssa.Instruction]bool {
+func ForwardUses(v ssa.Value) map[ssa.Instruction]bool { return forwardUses(v, false) }
+
+// AliasUses is ForwardUses restricted to values that can alias memory: propagation stops at scalars
+// and strings (copies), so only instructions that can observe or retain the same storage are returned
+// (plus the scalar-producing instructions that read it directly).
+func AliasUses(v ssa.Value) map[ssa.Instruction]bool { return forwardUses(v, true) }
+
+func mayAlias(t types.Type) bool {
+	switch u := t.Underlying().(type) {
+	case *types.Basic:
+		return u.Kind() == types.UnsafePointer
+	case *types.Tuple:
+		for i := 0; i < u.Len(); i++ {
+			if mayAlias(u.At(i).Type()) {
+				return true
+			}
+		}
+		return false
+	case *types.Struct:
+		for i := 0; i < u.NumFields(); i++ {
+			if mayAlias(u.Field(i).Type()) {
+				return true
+			}
+		}
+		return false
+	case *types.Array:
+		return mayAlias(u.Elem())
+	}
+	return true
+}
+
+func forwardUses(v ssa.Value, aliasOnly bool) map[ssa.Instruction]bool {
 	out := map[ssa.Instruction]bool{}
 	seenV := map[ssa.Value]bool{}
 	var visit func(x ssa.Value)
@@ -188,6 +220,9 @@ func ForwardUses(v ssa.Value) map[ssa.Instruction]bool {
 				continue
 			}
 			if rv, ok := r.(ssa.Value); ok {
+				if aliasOnly && !mayAlias(rv.Type()) {
+					continue
+				}
 				visit(rv)
 			}
 		}
